@@ -235,6 +235,7 @@ func runC11(c *Ctx, r *Report) {
 	c11scanner(c, r)
 	c11wiring(c, r)
 	c11ownership(c, r)
+	c11resets(c, r)
 }
 
 func c11tables(c *Ctx, r *Report, interp *ssa.Function) {
@@ -704,6 +705,38 @@ func c11wiring(c *Ctx, r *Report) {
 			}
 		})
 	}
+	// (c) a state rendered back to text in front of a piece is the state BEFORE that piece was scanned
+	toStr := l.Fn("fzf", "(*ansiState).ToString")
+	nPre := 0
+	if toStr != nil {
+		for _, fn := range c.L.AllFuncs() {
+			var ecCalls []*ssa.Call
+			eachInstr(fn, func(in ssa.Instruction) {
+				if call, ok := in.(*ssa.Call); ok && call.Common().StaticCallee() == ec {
+					ecCalls = append(ecCalls, call)
+				}
+			})
+			if len(ecCalls) == 0 {
+				continue
+			}
+			eachInstr(fn, func(in ssa.Instruction) {
+				call, ok := in.(*ssa.Call)
+				if !ok || !callIs(call.Common(), toStr) {
+					return
+				}
+				nPre++
+				recv := callArgs(call.Common())[0]
+				okPre := false
+				for _, e := range ecCalls {
+					if e.Call.Args[1] == recv {
+						okPre = true
+					}
+				}
+				r.check(okPre, shortFn(fn)+":re-emitted state is the state before the piece", call.Pos(), fn, "the state written in front of a token is the one extractColor was given for that token", "the token is prefixed with the state after it (or an unrelated one): colours leak backwards")
+			})
+		}
+	}
+	r.floor("re-emitted states (ansiState.ToString next to extractColor)", nPre, 1)
 	r.floor("--ansi line processors in Run", nProc, 2)
 	r.floor("extractColor call sites with a carried state", nCarry, 3)
 }
@@ -850,4 +883,115 @@ func c11ownership(c *Ctx, r *Report) {
 		r.check(okLen, "fzf.parseAnsiCode:computed result", ret.Pos(), parse, "a computed code is returned only for a non-empty parameter", "a computed code is returned for an empty parameter")
 	}
 	r.floor("returns of parseAnsiCode", nRet, 3)
+}
+
+// c11resets: R10 — one state object, and sibling reset sites agree.
+func c11resets(c *Ctx, r *Report) {
+	l := c.L
+	r.rule("C11-R10", "B (return census) + sibling agreement", "P1",
+		"interpretCode returns, at every return, the one local state that was initialised from the previous state (so every field a sequence does not mention is carried over); all sites that reset the attributes (ESC[m, an empty parameter list, SGR 0) overwrite the same set of fields with the same constants",
+		"one spelling of a reset also drops (or keeps) the hyperlink / line background while the others do not; state not mentioned by a sequence is lost")
+	interp := l.Fn("fzf", "interpretCode")
+	tState := l.Named("fzf", "ansiState")
+	fAttr := l.Field("fzf", "ansiState", "attr")
+	if interp == nil || tState == nil || fAttr == nil {
+		r.unest("anchors", token.NoPos, nil, "anchors interpretCode / ansiState", "cannot resolve")
+		return
+	}
+	// the local initialised from prevState: an Alloc of ansiState that receives a store whose value is built from loads of prevState's fields
+	prev := interp.Params[1]
+	var local *ssa.Alloc
+	eachInstr(interp, func(in ssa.Instruction) {
+		st, ok := in.(*ssa.Store)
+		if !ok {
+			return
+		}
+		base := addrRoot(st.Addr)
+		a, ok := base.(*ssa.Alloc)
+		if !ok || !types.Identical(deref(a.Type()), tState) {
+			return
+		}
+		for v := range backwardSlice(st.Val, nil, nil) {
+			if v == ssa.Value(prev) {
+				local = a
+			}
+		}
+	})
+	if local == nil {
+		r.unest("fzf.interpretCode:state", interp.Pos(), interp, "local state initialised from prevState", "not found")
+		return
+	}
+	nRet := 0
+	for _, b := range interp.Blocks {
+		ret, ok := b.Instrs[len(b.Instrs)-1].(*ssa.Return)
+		if !ok {
+			continue
+		}
+		nRet++
+		res := retResult(ret, 0)
+		u, ok := res.(*ssa.UnOp)
+		r.check(ok && u.Op == token.MUL && u.X == ssa.Value(local), "fzf.interpretCode:returns the carried state", ret.Pos(), interp, "returns the local state derived from prevState", "returns another object: fields the sequence did not mention are not carried over")
+	}
+	r.floor("returns of interpretCode", nRet, 3)
+	// reset sites: blocks that store the constant 0 into state.attr
+	type site struct {
+		at   token.Pos
+		sets map[string]string
+	}
+	var sites []site
+	pcI := pathConds(interp)
+	for _, b := range interp.Blocks {
+		sets := map[string]string{}
+		isReset := false
+		for _, in := range b.Instrs {
+			st, ok := in.(*ssa.Store)
+			if !ok {
+				continue
+			}
+			fa, ok := st.Addr.(*ssa.FieldAddr)
+			if !ok || fa.X != ssa.Value(local) {
+				continue
+			}
+			fld := tState.Underlying().(*types.Struct).Field(fa.Field)
+			if cst, ok := st.Val.(*ssa.Const); ok {
+				sets[fld.Name()] = cst.String()
+				if fld == fAttr && isConstInt(cst, 0) {
+					isReset = true
+				}
+			}
+		}
+		if isReset {
+			// the initialisation under `prevState == nil` is not a reset of a carried state
+			init := true
+			ds := pcI.At(b)
+			for _, dj := range ds {
+				if !hasLit(dj, func(a ssa.Value, v bool) bool {
+					bo, ok := a.(*ssa.BinOp)
+					if !ok || !(bo.X == ssa.Value(prev) || bo.Y == ssa.Value(prev)) {
+						return false
+					}
+					return (bo.Op == token.EQL && v) || (bo.Op == token.NEQ && !v) // prevState == nil holds
+				}) {
+					init = false
+				}
+			}
+			if len(ds) == 0 {
+				init = false
+			}
+			if !init {
+				sites = append(sites, site{b.Instrs[0].Pos(), sets})
+			}
+		}
+	}
+	r.floor("attribute reset sites in interpretCode", len(sites), 3)
+	if len(sites) > 0 {
+		ref := fmt.Sprint(sites[0].sets)
+		for i, s := range sites {
+			at := s.at
+			if !at.IsValid() {
+				at = interp.Pos()
+			}
+			r.check(fmt.Sprint(s.sets) == ref, fmt.Sprintf("fzf.interpretCode:reset site %d agrees", i), at, interp, "resets "+fmt.Sprint(s.sets), "resets "+fmt.Sprint(s.sets)+" but the first site resets "+ref)
+		}
+	}
 }
